@@ -6,6 +6,7 @@ import RV.Proofs.IntegrateRestore
 import RV.Proofs.IntegratePause
 import RV.Proofs.IntegrateIAS15
 import RV.Proofs.IntegrateGuard
+import RV.Proofs.IntegrateExitCond
 import RV.Gen.C08Status
 /-
   C08 — integrate() honours its time, step-size and status contract.
@@ -382,6 +383,26 @@ theorem c08_split_overshoot_reverses :
     A.t = 10 ∧ B.t = 0 ∧ B.dt = -10 ∧ B.stepsDone = 2 ∧ C.t = 10 ∧ C.dt = 10 ∧ C.stepsDone = 1 := by
   decide +kernel
 
+/-! ### the exit conditions computed from the particle positions (rebound.c:741-775) -/
+
+/-- `reb_run_heartbeat` on the positions `ps` of the real particles (index order), with the flags COMPUTED by
+    the model (`heartbeatFlags`: `escapeFlag`, `encounterFlag` in the operation order of rebound.c:745-772,
+    tied bitwise to the real routine): the status it leaves is ENCOUNTER if some pair is closer than
+    `exit_min_distance`, else ESCAPE if some particle is farther than `exit_max_distance` from the origin, else
+    USER if the heartbeat called stop, else unchanged; and the two computed flags mean exactly that —
+    escape ⇔ `exit_max_distance ≠ 0` and `∃ p, max² < x²+y²+z²`; no encounter ⇔ `exit_min_distance = 0` or all
+    pairs are at squared distance `≥ min²` (a zero distance switches the test off). -/
+theorem c08_exit_conditions_from_positions (s : Sim K) (user : Bool) (maxd mind : K) (ps : List (V3 K)) :
+    (runHeartbeat s (heartbeatFlags user maxd mind ps)).status =
+      (if encounterFlag mind ps then stENCOUNTER else if escapeFlag maxd ps then stESCAPE
+       else if user then stUSER else s.status) ∧
+    (escapeFlag maxd ps = true ↔ maxd ≠ 0 ∧ ∃ p ∈ ps, maxd ^ 2 < p.x ^ 2 + p.y ^ 2 + p.z ^ 2) ∧
+    (encounterFlag mind ps = false ↔ mind = 0 ∨
+      ps.Pairwise (fun a b => mind ^ 2 ≤ (b.x - a.x) ^ 2 + (b.y - a.y) ^ 2 + (b.z - a.z) ^ 2)) := by
+  refine ⟨?_, escapeFlag_iff maxd ps, encounterFlag_false_iff mind ps⟩
+  unfold runHeartbeat heartbeatFlags
+  cases user <;> cases escapeFlag maxd ps <;> cases encounterFlag mind ps <;> simp
+
 /-! ### the no-progress guard (/repo addb1f3) -/
 
 /-- `integrateG` is `reb_simulation_integrate` with the guard of commit addb1f3: a step that leaves `t` and
@@ -606,6 +627,15 @@ example :
     let r := integrateG false stuck (fun _ => {}) 50 s0 5 false
     let u := integrateG false stuck (fun _ => {}) 50 s0 0 false
     r.1.sim.status = 1 ∧ r.1.sim.stepsDone = 1 ∧ r.2 = true ∧ u.1.sim.status = 0 ∧ u.2 = false := by
+  decide +kernel
+
+/-- three particles, `exit_max_distance = 2`, `exit_min_distance = 1/2`: the pair (0,2) is closer than 1/2 and
+    particle 1 is outside the sphere; ENCOUNTER wins; with the minimum distance switched off it is ESCAPE -/
+example :
+    let ps : List (V3 ℚ) := [⟨0, 0, 0⟩, ⟨3, 0, 0⟩, ⟨1 / 4, 1 / 4, 0⟩]
+    (runHeartbeat demoSim (heartbeatFlags false 2 (1 / 2) ps)).status = 3 ∧
+    (runHeartbeat demoSim (heartbeatFlags false 2 0 ps)).status = 4 ∧
+    (runHeartbeat demoSim (heartbeatFlags true 0 0 ps)).status = 5 := by
   decide +kernel
 
 /-- pause at boundary 2, one single step, 50-step key, space twice: same end state as without keys -/
